@@ -9,7 +9,7 @@ import warnings
 
 from hypothesis import strategies as st
 
-from rdflib import BNode, Dataset, Graph, Literal, URIRef, Variable
+from rdflib import BNode, ConjunctiveGraph, Dataset, Graph, Literal, URIRef, Variable
 from rdflib import compare
 from rdflib.graph import DATASET_DEFAULT_GRAPH_ID
 from rdflib.namespace import RDF
@@ -30,7 +30,9 @@ RULE = ("graph or dataset (0-4 graphs incl. blank-node-named and empty ones, def
         "of the same store or of another store as context. Non-trivial = >=2 graphs incl. a blank-node-named or empty one and the sequence has a serialise and a "
         "query; distinct by SHA-1 of the case JSON.")
 ASSUMPTIONS = ["prefix bindings are not part of the snapshot (serialisers and qname legitimately generate prefixes)",
-               "two serialisations are 'the same answer' if byte-equal or if they parse to isomorphic graphs"]
+               "two serialisations of a single graph are 'the same answer' if byte-equal; of a dataset also if they parse to isomorphic "
+               "datasets (listing the graphs registers the default graph with the store the first time, which can change the order "
+               "the store hands the graphs out in)"]
 
 DEF = ("d",)
 GFMT = ["nt", "turtle", "longturtle", "n3", "xml", "pretty-xml", "json-ld", "hext"]
@@ -67,13 +69,14 @@ S1, P1 = URIRef("http://ex.org/s1"), URIRef("http://ex.org/p")
 def snapshot(target):
     """content through the store, plus the set of graphs of a dataset"""
     out = set()
-    if isinstance(target, Dataset):
+    if isinstance(target, ConjunctiveGraph):
         store = target.store
+        default_id = key(DATASET_DEFAULT_GRAPH_ID) if isinstance(target, Dataset) else key(target.default_context.identifier)
         for (s, p, o), ctxs in store.triples((None, None, None), None):
             for c in ctxs:
                 ident = getattr(c, "identifier", c)
-                out.add((key(s), key(p), key(o), DEF if key(ident) == key(DATASET_DEFAULT_GRAPH_ID) else key(ident)))
-        graphs = frozenset(key(getattr(c, "identifier", c)) for c in store.contexts()) | {key(DATASET_DEFAULT_GRAPH_ID)}
+                out.add((key(s), key(p), key(o), DEF if key(ident) == default_id else key(ident)))
+        graphs = frozenset(key(getattr(c, "identifier", c)) for c in store.contexts()) | {default_id}
         return frozenset(out), graphs
     return frozenset(tkey(t) for t in target), frozenset()
 
@@ -104,9 +107,13 @@ def norm_result(r):
     return ("val", repr(r))
 
 
-def same_answer(a, b, fmt=None):
+def same_answer(a, b, fmt=None, strict_text=False):
     if a == b:
         return True
+    if strict_text and a[0] == "text":
+        # a single graph written twice in a row: the same text (for a dataset the order of the graphs may differ between the first
+        # and the second time, see ASSUMPTIONS, and the texts are compared by what they say)
+        return False
     if a[0] == "graph" and b[0] == "graph":
         return iso.isomorphic(a[1], b[1])
     if a[0] == "text" and b[0] == "text" and fmt:
@@ -160,7 +167,7 @@ def _foreign(name):
 def make_read(op, target, is_ds, paths=None, prepared=None):
     """returns (label, callable) for a read-only call"""
     name = op[0]
-    g0 = target.default_graph if is_ds else target
+    g0 = target.default_context if is_ds else target
     if name == "serialize":
         fmts = DFMT if is_ds else GFMT
         fmt = fmts[op[1] % len(fmts)]
@@ -231,9 +238,10 @@ def run(case):
     with warnings.catch_warnings():
         warnings.simplefilter("ignore")
         if is_ds:
-            target = Dataset(default_union=(case["kind"] == "dataset-union"))
+            # ("cg": the older ConjunctiveGraph, whose default context has a blank node for a name)
+            target = ConjunctiveGraph() if case["kind"] == "cg" else Dataset(default_union=(case["kind"] == "dataset-union"))
             for name, triples in case["graphs"]:
-                g = target.default_graph if name is None else target.graph(T(name))
+                g = target.default_context if name is None else target.get_context(T(name))
                 for t in triples:
                     g.add(tuple(T(x) for x in t))
         else:
@@ -262,7 +270,7 @@ def run(case):
             if is_err(r1) != is_err(r2):
                 out.fail(("not-repeatable", label, "raises-once"), f"step {step} {label}: {r1!r} vs {r2!r}")
                 return out
-            if not is_err(r1) and not same_answer(r1, r2, fmt):
+            if not is_err(r1) and not same_answer(r1, r2, fmt, strict_text=not is_ds):
                 out.fail(("not-repeatable", label), f"step {step} {label}: first={str(r1)[:300]} second={str(r2)[:300]}")
                 return out
             out.sub_evals += 1
@@ -277,7 +285,7 @@ def run(case):
 
 @st.composite
 def cases(draw, tier):
-    kind = draw(st.sampled_from(["graph", "dataset", "dataset", "dataset-union"]))
+    kind = draw(st.sampled_from(["graph", "dataset", "dataset", "dataset-union", "cg"]))
     op = st.one_of(st.tuples(st.just("serialize"), st.integers(0, 7)), st.tuples(st.just("query"), st.integers(0, len(QUERIES) - 1)),
                    st.tuples(st.just("api"), st.integers(0, 33)), st.tuples(st.just("api"), st.integers(0, 33)),
                    st.tuples(st.just("prepared"), st.integers(0, len(PREPARED) - 1))).map(list)
